@@ -95,6 +95,26 @@ fn write_outputs(outputs: &IndexMap<String, SerializableValue>, output_path: Opt
     }
 }
 
+/// JSON has no NaN or infinity: refuse to output such a number instead of writing `0`.
+fn contains_non_finite(value: &SerializableValue) -> bool {
+    match value {
+        SerializableValue::Number(n) => !n.is_finite(),
+        SerializableValue::List(items) => items.iter().any(contains_non_finite),
+        SerializableValue::Record(fields) => fields.values().any(contains_non_finite),
+        _ => false,
+    }
+}
+
+fn reject_non_finite(identifier: &str, value: &SerializableValue) {
+    if contains_non_finite(value) {
+        eprintln!(
+            "[output error] {} contains a number that is not finite (NaN or infinity) and cannot be written as JSON",
+            identifier
+        );
+        std::process::exit(1);
+    }
+}
+
 /// Evaluate Blots source code and collect outputs
 fn evaluate_source(
     source: &str,
@@ -155,6 +175,7 @@ fn evaluate_source(
                                         } else if let Ok(serializable) =
                                             value.to_serializable_value(&heap.borrow())
                                         {
+                                            reject_non_finite(identifier, &serializable);
                                             outputs.insert(identifier.to_string(), serializable);
                                         }
                                     }
@@ -174,6 +195,7 @@ fn evaluate_source(
                                             } else if let Ok(serializable) =
                                                 value.to_serializable_value(&heap.borrow())
                                             {
+                                                reject_non_finite(identifier, &serializable);
                                                 outputs
                                                     .insert(identifier.to_string(), serializable);
                                             }
